@@ -38,7 +38,7 @@ EXPR = {
     "listcomp-elt": "[({E}) for _ in xs]", "listcomp-iter": "[1 for _ in [({E})]]", "listcomp-if": "[1 for _ in xs if ({E})]",
     "setcomp-elt": "{{({E}) for _ in xs}}", "dictcomp-key": "{{({E}): 1 for _ in xs}}", "dictcomp-val": "{{1: ({E}) for _ in xs}}",
     "genexp-elt": "list(({E}) for _ in xs)", "comp-2nd-iter": "[1 for _ in xs for _ in [({E})]]",
-    "comp-2nd-if": "[1 for _ in xs for _ in xs if ({E})]", "fstring": 'f"{{{E}}}"', "fstring-spec": 'f"{{1:{{{E}}}}}"',
+    "comp-2nd-if": "[1 for _ in xs for _ in xs if ({E})]", "fstring": 'f"{{({E})}}"', "fstring-spec": 'f"{{1:{{({E})}}}}"',
     "walrus": "(y := ({E}))", "starred": "(*[({E})],)", "repr-call": "repr({E})",
 }
 
